@@ -237,7 +237,9 @@ def getitem(np_, a, idx):
         else:
             raise Untranslatable(f"index of type {type(x).__name__} on symbolic-extent array")
     if not out_axes:
-        t = z3.simplify(z3.Select(a.term, *[f[1] for f in fixed]))
+        t = z3.simplify(z3.Select(a._term, *[f[1] for f in fixed]))
+        if a.nan is not None:
+            return mk(t, kind_of_dtype(a.dtype), True, z3.simplify(z3.Select(a.nan, *[f[1] for f in fixed])))
         return mk(t, kind_of_dtype(a.dtype), True)
     if a.ndim == 1 and isinstance(idx[0], TArr):
         pass
@@ -266,9 +268,67 @@ def _slice_bound(np_, v, n, default):
     return z3.simplify(z3.If(t < 0, 0, z3.If(t > n, n, t)))
 
 
+def _nan_flag(v):
+    """z3 Bool: the scalar v is NaN"""
+    import math
+    r = raw(v)
+    if isinstance(r, Sym):
+        return r.nan if r.nan is not None else z3.BoolVal(False)
+    return z3.BoolVal(isinstance(r, float) and math.isnan(r))
+
+
+def _mask_or_false(np_, a):
+    if a.nan is not None:
+        return a.nan
+    idx = fresh_index(np_, a.ndim)
+    return z3.Lambda(idx, z3.BoolVal(False))
+
+
 def setitem(np_, a, idx, v):
     if not isinstance(idx, tuple):
         idx = (idx,)
+    full = lambda x: isinstance(x, slice) and x.start is None and x.stop is None and x.step is None
+    if a.dtype.kind == "f" and not isinstance(v, (TArr, Arr, list, tuple)) and all(full(x) for x in idx) and len(idx) <= a.ndim:
+        # a[:] = scalar (every element); a NaN scalar sets the NaN mask of every element
+        fl = z3.simplify(_nan_flag(v))
+        jdx = fresh_index(np_, a.ndim)
+        if z3.is_true(fl):
+            a.nan = z3.Lambda(jdx, z3.BoolVal(True))
+        elif z3.is_false(fl):
+            a._term = z3.Lambda(jdx, term_of(raw(v), "float"))
+            a.nan = None
+        else:
+            raise Untranslatable("a[:] = scalar that may or may not be NaN")
+        a.slice_of = None
+        return
+    if a.ndim == 2 and len(idx) == 2 and not isinstance(idx[0], slice) and full(idx[1]):
+        # a[i, :] = row (1-D array of the row length, or a scalar)
+        it = norm_int_index(np_, idx[0], a.shape[0])
+        k = kind_of_dtype(a.dtype)
+        i, j = fresh_index(np_, 2)
+        if isinstance(v, TArr):
+            if v.ndim != 1:
+                raise Untranslatable("row assignment of an n-d value")
+            if not np_.I.ctx.branch(term_of(raw(v.shape[0]), "int") == term_of(raw(a.shape[1]), "int")):
+                raise Raised(ValueError("could not broadcast input array into the row"))
+            val, vnan = elem_term(v, (j,), k), z3.BoolVal(False)      # v.term: a row that may hold NaN is outside the subset
+        else:
+            val, vnan = term_of(raw(v), k), _nan_flag(v)
+        m = raw(a.shape[1])
+        if isinstance(m, int) and m <= 8:
+            # a row of concrete length: one Store per column (keeps Lambda terms out of the quantified obligations)
+            for c in range(m):
+                vc_ = z3.simplify(z3.substitute(val, (j, z3.IntVal(c))))
+                if a.nan is not None or not z3.is_false(z3.simplify(vnan)):
+                    a.nan = z3.Store(_mask_or_false(np_, a), it, z3.IntVal(c), vnan)
+                a._term = z3.Store(a._term, it, z3.IntVal(c), vc_)
+            a.slice_of = None
+            return
+        if a.nan is not None or not z3.is_false(z3.simplify(vnan)):
+            a.nan = z3.Lambda([i, j], z3.If(i == it, vnan, z3.Select(_mask_or_false(np_, a), i, j)))
+        a._term = z3.Lambda([i, j], z3.If(i == it, val, z3.Select(a._term, i, j)))
+        a.slice_of = None
+        return
     if a.ndim == 1 and len(idx) == 1 and isinstance(idx[0], slice):
         # a[lo:hi] = v for a 1-D array: v an array of the slice's length or a scalar
         x = idx[0]
@@ -295,7 +355,11 @@ def setitem(np_, a, idx, v):
         raise Untranslatable("slice assignment on symbolic-extent array")
     ts = [norm_int_index(np_, x, a.shape[k]) for k, x in enumerate(idx)]
     k = kind_of_dtype(a.dtype)
-    a.term = z3.Store(a.term, *ts, term_of(raw(v), k))
+    if a.dtype.kind == "f":
+        fl = z3.simplify(_nan_flag(v))
+        if a.nan is not None or not z3.is_false(fl):
+            a.nan = z3.Store(_mask_or_false(np_, a), *ts, fl)
+    a._term = z3.Store(a._term, *ts, term_of(raw(v), k))
 
 
 _SUMS = {}
